@@ -1541,6 +1541,18 @@ func (r *simRun) apply(ev string) (alive bool) {
 		}
 	case "E":
 		r.refreshBackends()
+		if len(f) > 1 {
+			// E k: exactly the k earliest deadlines of unanswered fragments pass (deadline order = write order)
+			k, _ := strconv.Atoi(f[1])
+			for _, x := range r.env.env.ExpireOldest(k) {
+				r.tags["expired-some"] = true
+				if args, _, err := strictParse(x.Req); err == nil {
+					r.noteAnswered(-1, args, "timeout", nil)
+				}
+			}
+			r.model = append(r.model, fmt.Sprintf("E %d", k))
+			break
+		}
 		if r.cfg.timeout {
 			r.tags["expired"] = true
 			for j, b := range r.backends {
